@@ -313,22 +313,86 @@ thread_local! {
 /// this thread, 0 otherwise (the caller then asks the operating system).
 #[unsafe(no_mangle)]
 pub unsafe extern "C" fn __verif_getrandom(ptr: *mut u8, len: usize) -> i32 {
-    let active = IN_RUN.try_with(|c| c.get()).unwrap_or(false);
-    if !active {
+    if !in_run() {
         return 0;
     }
-    ENTROPY
-        .try_with(|e| {
-            let mut e = e.borrow_mut();
-            let Some(rng) = e.as_mut() else { return 0 };
-            let out = unsafe { std::slice::from_raw_parts_mut(ptr, len) };
-            for chunk in out.chunks_mut(8) {
-                let v = rng.next().to_le_bytes();
-                chunk.copy_from_slice(&v[..chunk.len()]);
-            }
-            1
-        })
-        .unwrap_or(0)
+    let fill = |e: &RefCell<Option<Rng>>| {
+        let Ok(mut e) = e.try_borrow_mut() else { return 0 };
+        let Some(rng) = e.as_mut() else { return 0 };
+        let out = unsafe { std::slice::from_raw_parts_mut(ptr, len) };
+        for chunk in out.chunks_mut(8) {
+            let v = rng.next().to_le_bytes();
+            chunk.copy_from_slice(&v[..chunk.len()]);
+        }
+        1
+    };
+    if let Some(sh) = shared() {
+        return fill(unsafe { &*sh.entropy });
+    }
+    ENTROPY.try_with(|e| fill(e)).unwrap_or(0)
+}
+
+// ---------------------------------------------------------------- runs with several threads (Engine M)
+//
+// A run belongs to the thread that executes it: decider, entropy stream and panic note are thread-locals of
+// that thread. When a run starts further OS threads under a scheduler that lets exactly one of them run at
+// any time, those threads adopt the run: their accesses go to the owning thread's cells through the pointers
+// published here. Exclusive access is the scheduler's business (the hand-over of the baton orders them).
+
+struct SharedRun {
+    cur: *const RefCell<Option<Decider>>,
+    entropy: *const RefCell<Option<Rng>>,
+    last_panic: *const RefCell<Option<String>>,
+}
+
+static SHARED: std::sync::atomic::AtomicPtr<SharedRun> = std::sync::atomic::AtomicPtr::new(std::ptr::null_mut());
+
+thread_local! {
+    static ADOPTED: std::cell::Cell<bool> = const { std::cell::Cell::new(false) };
+}
+
+fn shared() -> Option<&'static SharedRun> {
+    if !ADOPTED.try_with(|a| a.get()).unwrap_or(false) {
+        return None;
+    }
+    let p = SHARED.load(std::sync::atomic::Ordering::Acquire);
+    if p.is_null() { None } else { Some(unsafe { &*p }) }
+}
+
+/// The calling thread's run may be adopted by other threads from now on (until `share_end`).
+pub fn share_begin() {
+    let run = Box::new(SharedRun {
+        cur: CUR.with(|c| c as *const _),
+        entropy: ENTROPY.with(|c| c as *const _),
+        last_panic: LAST_PANIC.with(|c| c as *const _),
+    });
+    let old = SHARED.swap(Box::into_raw(run), std::sync::atomic::Ordering::AcqRel);
+    if !old.is_null() {
+        drop(unsafe { Box::from_raw(old) });
+    }
+}
+
+pub fn share_end() {
+    let old = SHARED.swap(std::ptr::null_mut(), std::sync::atomic::Ordering::AcqRel);
+    if !old.is_null() {
+        drop(unsafe { Box::from_raw(old) });
+    }
+}
+
+/// The calling thread takes part in (or leaves) the run published by `share_begin`.
+pub fn adopt(on: bool) {
+    let _ = ADOPTED.try_with(|a| a.set(on));
+}
+
+fn in_run() -> bool {
+    shared().is_some() || IN_RUN.try_with(|c| c.get()).unwrap_or(false)
+}
+
+fn with_cur<R>(f: impl FnOnce(&RefCell<Option<Decider>>) -> R) -> R {
+    match shared() {
+        Some(sh) => f(unsafe { &*sh.cur }),
+        None => CUR.with(f),
+    }
 }
 
 // ---------------------------------------------------------------- thread-local access
@@ -339,7 +403,7 @@ thread_local! {
 
 /// Run `f` on the current run's decider. Panics outside a run (harness bug).
 pub fn with<R>(f: impl FnOnce(&mut Decider) -> R) -> R {
-    CUR.with(|c| {
+    with_cur(|c| {
         let mut b = c.borrow_mut();
         f(b.as_mut().expect("simcore: no run in progress on this thread"))
     })
@@ -348,14 +412,14 @@ pub fn with<R>(f: impl FnOnce(&mut Decider) -> R) -> R {
 /// Like `with`, but a no-op returning `None` outside a run (used by vendored
 /// crates, which may be called from harness set-up code).
 pub fn try_with<R>(f: impl FnOnce(&mut Decider) -> R) -> Option<R> {
-    CUR.with(|c| match c.try_borrow_mut() {
+    with_cur(|c| match c.try_borrow_mut() {
         Ok(mut b) => b.as_mut().map(f),
         Err(_) => None,
     })
 }
 
 pub fn active() -> bool {
-    CUR.with(|c| c.try_borrow().map(|b| b.is_some()).unwrap_or(true))
+    with_cur(|c| c.try_borrow().map(|b| b.is_some()).unwrap_or(true))
 }
 
 pub fn choose(kind: &'static str, n: usize) -> usize {
@@ -428,7 +492,7 @@ thread_local! {
 pub fn install_panic_hook() {
     let prev = panic::take_hook();
     panic::set_hook(Box::new(move |info| {
-        if IN_RUN.with(|c| c.get()) {
+        if in_run() {
             let msg = if let Some(s) = info.payload().downcast_ref::<&str>() {
                 s.to_string()
             } else if let Some(s) = info.payload().downcast_ref::<String>() {
@@ -444,12 +508,17 @@ pub fn install_panic_hook() {
                 .location()
                 .map(|l| format!("{}:{}", l.file(), l.line()))
                 .unwrap_or_default();
-            LAST_PANIC.with(|p| {
-                let mut p = p.borrow_mut();
-                if p.is_none() {
-                    *p = Some(format!("{msg} @ {loc}"));
+            let note = |p: &RefCell<Option<String>>| {
+                if let Ok(mut p) = p.try_borrow_mut() {
+                    if p.is_none() {
+                        *p = Some(format!("{msg} @ {loc}"));
+                    }
                 }
-            });
+            };
+            match shared() {
+                Some(sh) => note(unsafe { &*sh.last_panic }),
+                None => LAST_PANIC.with(|p| note(p)),
+            }
         } else {
             prev(info);
         }
